@@ -5,6 +5,7 @@ import (
 	"fmt"
 	"os"
 	"os/exec"
+	"strings"
 	"unsafe"
 
 	"github.com/cloudwego/gopkg/unsafex"
@@ -399,7 +400,33 @@ func init() {
 			for i := range r.Violations {
 				r.Violations[i].Sub = "post"
 			}
-			return map[string]interface{}{"go100_variant_evaluations": r.Evaluations, "go100_variant_distinct": r.Distinct}, r.Violations
+			extra := map[string]interface{}{"go100_variant_evaluations": r.Evaluations, "go100_variant_distinct": r.Distinct}
+			vs := r.Violations
+			// the conversions on a 32-bit target (cmd/c20arch built with GOARCH=386)
+			if b386 := os.Getenv("VERIF_C20_386_BIN"); b386 == "" {
+				extra["word_size_4_variant"] = "not built (package unsafex does not build for GOARCH=386 on this tree, or VERIF_C20_386_BIN unset)"
+			} else {
+				o386, e386 := exec.Command(b386).CombinedOutput()
+				text := strings.TrimSpace(string(o386))
+				_, exited := e386.(*exec.ExitError)
+				switch {
+				case e386 == nil:
+					extra["word_size_4_variant"] = text
+				case !exited:
+					extra["word_size_4_variant"] = "skipped: this kernel does not execute 32-bit binaries (" + e386.Error() + ")"
+				default:
+					sig, what := "C20|arch|failed", text
+					for _, l := range strings.Split(text, "\n") {
+						if f := strings.SplitN(l, " ", 3); len(f) == 3 && f[0] == "FAIL" {
+							sig, what = f[1], "GOARCH=386: "+f[2]
+							break
+						}
+					}
+					raw, _ := json.Marshal(map[string]string{"goarch": "386", "output": tailStr(text, 3000)})
+					vs = append(vs, mc.Violation{Property: "C20", Sub: "post", Sig: sig, What: what, Case: raw})
+				}
+			}
+			return extra, vs
 		},
 	})
 }
